@@ -13,6 +13,7 @@ pub mod c10;
 pub mod c11;
 pub mod c12;
 pub mod c13;
+pub mod c14;
 pub mod c18;
 pub mod c19;
 
@@ -35,6 +36,7 @@ pub fn all() -> Vec<Prop> {
         Prop { id: "C11", level: "fault_enumeration", run: c11::run },
         Prop { id: "C12", level: "exploration", run: c12::run },
         Prop { id: "C13", level: "exploration", run: c13::run },
+        Prop { id: "C14", level: "exploration", run: c14::run },
         Prop { id: "C18", level: "exploration", run: c18::run },
         Prop { id: "C19", level: "exploration", run: c19::run },
     ]
